@@ -19,16 +19,25 @@ import (
 	"sync"
 	"syscall"
 	"time"
+
+	"github.com/getlantern/sqlparser"
 )
 
 type childReq struct {
-	Op     string        `json:"op"` // "query" | "luaquery" | "insert" | "ping"
+	Op     string        `json:"op"` // "query" | "parseonly" | "lex" | "luaquery" | "insert" | "ping"
 	SQL    string        `json:"sql,omitempty"`
 	Slow   bool          `json:"slow,omitempty"` // second attempt after a timeout: allow four times as long
 	Script *insertScript `json:"script,omitempty"`
 }
 
+// lexVerdict is what the real sqlparser tokenizer did with an input.
+type lexVerdict struct {
+	Terminated bool `json:"terminated"`
+	Tokens     int  `json:"tokens"`
+}
+
 type childResp struct {
+	Lex     *lexVerdict    `json:"lex,omitempty"`
 	Pure    *sqlOutcome    `json:"pure,omitempty"` // parse, tablefor, fields
 	Plan    *stageResult   `json:"plan,omitempty"`
 	Cluster *stageResult   `json:"cluster,omitempty"`
@@ -83,6 +92,43 @@ func childMain() error {
 			switch req.Op {
 			case "ping":
 				reply(&childResp{})
+			case "lex":
+				// the real tokenizer on the whole input, under a watchdog: it cannot be
+				// interrupted, so after a verdict "did not terminate" this process ends
+				mult := time.Duration(1)
+				if req.Slow {
+					mult = 4
+				}
+				done := make(chan int, 1)
+				go func(s string) {
+					tkn := sqlparser.NewStringTokenizer(s)
+					n := 0
+					for {
+						typ, _ := tkn.Scan()
+						if typ == 0 || typ == sqlparser.LEX_ERROR {
+							break
+						}
+						n++
+					}
+					done <- n
+				}(req.SQL)
+				select {
+				case n := <-done:
+					reply(&childResp{Lex: &lexVerdict{Terminated: true, Tokens: n}})
+				case <-time.After(mult * time.Second):
+					reply(&childResp{Lex: &lexVerdict{Terminated: false}})
+					os.Exit(0)
+				}
+			case "parseonly":
+				mult := time.Duration(1)
+				if req.Slow {
+					mult = 4
+				}
+				pure := runPure(req.SQL, mult)
+				reply(&childResp{Pure: pure})
+				if _, st, bad := pure.worst(); bad && st.Class == clsHang {
+					os.Exit(0) // a goroutine is spinning
+				}
 			case "query":
 				if env == nil {
 					var e error
